@@ -594,6 +594,50 @@ def _split_rep_parts(text, slots, d):
     return _renumber_slots(" ".join(" ".join(toks).split()), slots)
 
 
+def _unroll_rep_literals(text, slots):
+    """`#( pre #k post ),*` over a list written out in place (`vec![a, b]`, `[a, b]`, at most four items) is `pre #a post , pre #b post`"""
+    toks = text.split(" ")
+    slots = list(slots)
+    i = 0
+    changed = False
+    while i < len(toks):
+        if toks[i] != "#(":
+            i += 1
+            continue
+        depth, j = 1, i + 1
+        while j < len(toks) and depth:
+            if toks[j] in _OPEN_TOK:
+                depth += 1
+            elif toks[j] in _CLOSE_TOK or _rep_close(toks[j]):
+                depth -= 1
+            j += 1
+        inner = toks[i + 1:j - 1]
+        marks = [x for x in inner if re.fullmatch(r"#\d+", x)]
+        ok = depth == 0 and _rep_close(toks[j - 1]) and len(marks) == 1 and "#(" not in inner and toks.count(marks[0]) == 1
+        st = slots[int(marks[0][1:])] if ok else None
+        items = None
+        if ok and st[0] == "call" and st[1] == "vec!" and len(st[2]) <= 4:
+            items = list(st[2])
+        elif ok and st[0] == "array" and len(st[1]) <= 4:
+            items = list(st[1])
+        if items is None:
+            i += 1
+            continue
+        sep = toks[j - 1][1:-1]
+        new = []
+        for n_, it_ in enumerate(items):
+            if n_ and sep:
+                new.append(sep)
+            slots.append(it_)
+            new += [("#%d" % (len(slots) - 1)) if x == marks[0] else x for x in inner]
+        toks[i:j] = new
+        changed = True
+        i += len(new)
+    if not changed:
+        return text, slots
+    return _renumber_slots(" ".join(" ".join(toks).split()), slots)
+
+
 def _fold_rep_groups(text, slots):
     """`#( pre #k post )*` over `it.map(|x| quote!(body))` is `#( #k )*` over `it.map(|x| quote!(pre body post))`: the literal tokens of a
     repetition (without separator) belong to every element, wherever they are written"""
@@ -2390,6 +2434,10 @@ class Norm:
                 x = self._t(node["args"][0])
                 d = depth + 1
                 hoist = False
+                if it[0] == "struct" and cshort(it[1]) == "ops::Range" and isinstance(it[3], dict) and it[3].get("start") == ("lit", "0") \
+                        and it[3].get("end", ("?",))[0] == "lit" and str(it[3]["end"][1]).isdigit() and int(it[3]["end"][1]) <= 4 \
+                        and not any(y == ("elem", it) for y in subterms(x)):
+                    return ("call", "vec!", [x] * int(it[3]["end"][1]))        # for _ in 0..2 { v.push(X) }  ==  vec![X, X]
                 if it[0] == "call" and it[1] in ("Iterator::filter_map", "Iterator::filter") and len(it[2]) == 2 and it[2][1][0] == "closure":
                     # for y in it.filter_map(f) { v.push(X) }: the list built as  for x in it { if let Some(y) = f(x) { X } }   (the form of the
                     # collected filter_map)
@@ -3726,6 +3774,7 @@ class Norm:
             slots.append(st)
             return "#%d" % (len(slots) - 1)
         text = " ".join(T.render(items, interp).split())
+        text, slots = _unroll_rep_literals(text, slots)
         text, slots = _fold_rep_groups(text, slots)
         text, slots = _split_rep_parts(text, slots, getattr(self, "_cur_depth", 0) + 1)
         return _tpl_over_match(("tpl", kind, text, slots))
